@@ -43,6 +43,8 @@ CONTRACTS = [
             "forall(0, len(delays), lambda k: implies(delays[k] == 0, rates[k] == 0))",
         ],
         abstractions=ABS, modifies=[], local_kinds={"orders": "seq[int]", "rates": "seq[real]"},
+        # `orders` / `rates` are roles: the two lists initialised by the statement before the loop, whatever the source calls them
+        bind_locals={"orders": (0, 0), "rates": (0, 1)},
     ),
     dict(
         name="NetworkGraph._add_matrix_delay@kernel-order", prop="C11", target=f"{F}::NetworkGraph._add_matrix_delay",
@@ -55,5 +57,7 @@ CONTRACTS = [
             "implies(not spread > 0 and dde_approx > 0, n == dde_approx)",
         ],
         abstractions=ABS, modifies=[],
+        # `n` / `a` are roles: the number of stages chosen by the if-chain and the stage rate assigned right after it
+        bind_locals={"n": (0, 0), "a": (1, 0)},
     ),
 ]
